@@ -49,11 +49,13 @@ class MaskModel(object):
         self.ap = repo.func(SIG + ':apply_params')
         self.ret_paths = []
         self.raise_paths = []
+        self.early_rets = []     # returning paths that do not go through apply_params (judged by early_returns())
         for p in self.paths:
             if p.status == 'return':
                 v = p.value
                 if not (v[0] == 'C' and isinstance(v[1], str) and v[1].endswith(':apply_params')):
-                    raise Inconclusive('_mask: result is not built by apply_params: %s' % show(v)[:200])
+                    self.early_rets.append(p)
+                    continue
                 b = _bind(self.ap, v[2], v[3])
                 if b is None:
                     raise Inconclusive('_mask: cannot bind apply_params arguments')
@@ -174,6 +176,7 @@ def rule_mask_hide(check, model, rule, rule_src):
     iPO, iPOK, iVP, iKWO, iVK = [proto.index_of_kind(k) for k in KINDS]
     n = 0
     seen = set()
+    early_returns(check, model, rule, None)
     for p, items in model.ret_paths:
         g, unknown = flag_vals(model, p)
         gtext = lits_text([l for l in p.lits])
@@ -1049,11 +1052,49 @@ def _raise_in_prefix(p):
     return False
 
 
+def early_returns(check, model, rule_identity, rule_partial):
+    """returning paths of _mask that bypass apply_params.  The only such result that can be right is the input signature itself
+    (upgraded), and only when nothing is consumed, named or hidden (rule_identity: C03.R5); in partial mode no such path may exist
+    at all, since the tail of _mask is what pushes the provenance one level down and puts the partial object at depth 0
+    (rule_partial: C19.R3 / C08.R4)."""
+    sig = model.role_term('sig')
+    named = model.role_term('named_args')
+    for i, p in enumerate(model.early_rets):
+        v = p.value
+        node = [e for e in p.effects if e.kind == 'return'][-1].node
+        st = site(None, node)
+        g, unknown = flag_vals(model, p)
+        named_falsy = any(a == ('truthy', named) and not pol for a, pol in p.lits)
+        identity = v == sig or (v[0] in ('C', 'M') and ('_upgrade' in str(v[1]) or (v[0] == 'M' and '_upgrade' in str(v[2]))) and mentions(v, sig))
+        key = '_signatures:_mask|early-return|%s' % show(v)[:60]
+        if rule_identity:
+            asked = [k for k in FLAGS + ['num_args'] if g.get(k) is not False] + ([] if named_falsy else ['named_args'])
+            if not identity:
+                check.inconclusive(rule_identity, st, 'a result of _mask is not built by apply_params: %s' % show(v)[:100], key=key)
+            elif asked:
+                check.violation(rule_identity, st, 'the input signature is returned unchanged although %s may be set' % ', '.join(asked), key=key,
+                                guards=lits_text(p.lits), witness="mask(s('a, b'), 1) must be (b)")
+            else:
+                check.holds(rule_identity, st, 'the input signature is returned unchanged only when nothing is consumed, named or hidden', key=key,
+                            guards=lits_text(p.lits))
+        if rule_partial:
+            part = g.get('partial')
+            if part is None:
+                part = g.get('partial_truthy')
+            if part is False:
+                check.holds(rule_partial, st, 'early return outside partial mode only', key=key + '|partial', guards=lits_text(p.lits))
+            else:
+                check.violation(rule_partial, st, 'in partial mode _mask can return %s without going through its tail: the provenance is not '
+                                'pushed one level down and the partial object gets no depth 0' % show(v)[:60], key=key + '|partial',
+                                guards=lits_text(p.lits), witness="signature(partial(f)).sources['+depths'] must be {partial_obj: 0, f: 1}")
+
+
 def rule_mask_partial(check, model, rule):
     """C19.R3 / C08.R4: in partial mode the provenance map is a depth-increased copy
     and the partial object is (re-)added at depth 0 afterwards"""
     n = 0
     seen = set()
+    early_returns(check, model, None, rule)
     src0 = ('S', model.sr, K(5))
     for p, items in model.ret_paths:
         g, unknown = flag_vals(model, p)
